@@ -8,6 +8,7 @@
 package c15
 
 import (
+	"sync/atomic"
 	"encoding/json"
 	"fmt"
 	"os"
@@ -64,12 +65,18 @@ func explore(rep *core.Report, layer string, p plan, stateless bool) (xplore.Sta
 	for _, k := range keys {
 		n := cnt.keys[k]
 		_, viol := xplore.Replay(func() xplore.Instance { return newInstanceFor(layer, u, &counters{}) }, n.History)
+		found := false
 		for _, v := range viol {
 			if v.Key == k {
+				found = true
 				for c := 0; c < n.Count; c++ {
 					rep.Violation(v)
 				}
 			}
+		}
+		if !found { // never expected: the explorer saw it, the replay did not
+			rep.Violation(core.Violation{Key: k, Summary: fmt.Sprintf("[%s/%s] after %v (seen by the explorer, not reproduced by the replay)", layer, u.Name, n.History),
+				Case: map[string]interface{}{"layer": layer, "universe": u.Name, "history": n.History}})
 		}
 	}
 	return st, cnt
@@ -130,6 +137,8 @@ func run(tier core.Tier) *core.Report {
 	rep.Assume("'every accepted proposal is stored exactly once' is demanded for accepted proposals that descend from the current committed root; proposals on branches conflicting with the committed root may be pruned")
 	rep.Assume("handlers run one at a time (arrival orders are enumerated, not goroutine interleavings inside one handler; smr.go:204-206 starts them unsynchronised)")
 	rep.Assume("layer 2: the crypto client's pure functions (verify, key parsing, address, sign) are memoised; the network only records sends; validators are interchangeable, so votes are offered for the next new voter and one repeated voter")
+	rep.Set("observed_highqc_outside_root_states", int(atomic.LoadInt64(&ObservedHighQCOutsideRoot)))
+	rep.Assume("HighQC hanging under the committed root is not part of the statement: states where updateCommit left it on a pruned branch or behind the new root are counted (observed_highqc_outside_root_states), not judged")
 	return rep
 }
 
